@@ -303,7 +303,7 @@ example : jOffsets 2 [] (Stream.run {n := 2, ret := .age 3} (Stream.init 2)
 example : (Stream.run {n := 2, ret := .age 3} (Stream.init 2)
     [(0, .append 7 1), (1, .append 8 1), (4, .append 9 1), (5, .retention), (5, .read 1 0 5),
      (6, .append 5 1), (7, .read 1 1 2)]).map (·.out) =
-    [.appended 1 0, .appended 1 1, .appended 1 2, .total 1, .records [(1, 2)], .appended 1 3,
+    [.appended 1 0, .appended 1 1, .appended 1 2, .total 1 [[], [2]], .records [(1, 2)], .appended 1 3,
      .records [(1, 2), (1, 3)]] := by decide
 
 /-- the judge does reject a trace with a gap -/
